@@ -33,6 +33,15 @@ type batchSpec struct {
 	Strace    bool
 	Special   string // env | audit : driver-side comparisons on top of worker results
 	FaultFree bool
+	EnvV      *envVariant
+}
+
+func jsonRoundTrip(in any, out any) error {
+	b, err := json.Marshal(in)
+	if err != nil {
+		return err
+	}
+	return json.Unmarshal(b, out)
 }
 
 type batchAgg struct {
@@ -48,6 +57,7 @@ type batchAgg struct {
 	FirstSeed  uint64
 	WallS      float64
 	Hashes     map[uint64]string
+	Modes      map[uint64]string
 	HarnessErr []string
 }
 
@@ -119,6 +129,10 @@ func spawnRun(spec batchSpec, tier string, seed uint64, planFile string, keepLog
 		env = append(env, "GORACE=halt_on_error=1 exitcode=66")
 	}
 	env = append(env, spec.Env...)
+	if spec.EnvV != nil {
+		env = applyEnv(env, *spec.EnvV)
+		cmd.Dir = spec.EnvV.Dir
+	}
 	cmd.Env = env
 	var out, errb bytes.Buffer
 	cmd.Stdout, cmd.Stderr = &out, &errb
@@ -174,11 +188,15 @@ func runBatch(spec batchSpec, tier string, batch uint64, deadline time.Time, onC
 		go func() {
 			defer wg.Done()
 			for it := range jobs {
-				res, stderr, err := spawnRun(spec, tier, it.seed, "", false, perRun)
+				rs := spec
+				if strings.Contains(rs.Mode, "%d") {
+					rs.Mode = fmt.Sprintf(rs.Mode, it.i)
+				}
+				res, stderr, err := spawnRun(rs, tier, it.seed, "", false, perRun)
 				mu.Lock()
 				if err != nil {
 					if onCrash != nil {
-						if fv := onCrash(spec, it.seed, stderr, err); fv != nil {
+						if fv := onCrash(rs, it.seed, stderr, err); fv != nil {
 							agg.Violations = append(agg.Violations, *fv)
 							agg.Runs++
 							mu.Unlock()
@@ -194,6 +212,12 @@ func runBatch(spec batchSpec, tier string, batch uint64, deadline time.Time, onC
 				agg.Ops += res.Ops
 				agg.Checks += res.Checks
 				agg.Hashes[it.seed] = res.TraceHash
+				if rs.Mode != spec.Mode {
+					if agg.Modes == nil {
+						agg.Modes = map[uint64]string{}
+					}
+					agg.Modes[it.seed] = rs.Mode
+				}
 				for k, v := range res.Counters {
 					agg.Counters[k] += v
 				}
@@ -256,7 +280,11 @@ func recheckDeterminism(agg *batchAgg, tier string) []string {
 		go func() {
 			defer wg.Done()
 			defer func() { <-sem }()
-			res, _, err := spawnRun(agg.Spec, tier, s, "", false, 300*time.Second)
+			rs := agg.Spec
+			if m, ok := agg.Modes[s]; ok {
+				rs.Mode = m
+			}
+			res, _, err := spawnRun(rs, tier, s, "", false, 300*time.Second)
 			mu.Lock()
 			defer mu.Unlock()
 			if err != nil {
@@ -476,7 +504,7 @@ func reportViolation(fv foundViolation, tier string, occurrences int) string {
 	if tier == "thorough" {
 		budget = 10 * time.Minute
 	}
-	if fv.Plan != nil {
+	if fv.Plan != nil && planSize(fv.Plan) > 0 {
 		min := minimise(fv.Plan, fv.V, fv.Spec, tier, budget)
 		if min != nil {
 			min.Violation = &v
@@ -533,8 +561,14 @@ func replayMain(args []string) {
 	if err != nil {
 		die(2, "cannot read replay file: %v", err)
 	}
+	if replaySpecial(p, args[0]) {
+		return
+	}
 	spec := batchSpec{Engine: p.Engine, Prop: p.Prop}
 	if p.Knobs != nil {
+		if a, ok := p.Knobs["audit"].(bool); ok {
+			spec.Audit = a
+		}
 		if m, ok := p.Knobs["worker_mode"].(string); ok {
 			spec.Mode = m
 		}
